@@ -7,6 +7,7 @@ mod clock;
 mod hs;
 mod interop;
 mod sha;
+mod skel;
 mod msg;
 mod pair;
 mod res;
@@ -93,6 +94,14 @@ fn main() {
             let shard: u64 = a.rest.get(1).map(|s| s.parse().unwrap()).unwrap_or(0);
             let nshards: u64 = a.rest.get(2).map(|s| s.parse().unwrap()).unwrap_or(1);
             let info = pair::generate(&a.tier, a.seed, shard, nshards, &a.out);
+            println!("{}", info);
+        }
+        "skel" => {
+            // vharness skel <server|client> <shard> <nshards> <paths.json> --out FILE
+            let side = a.rest[0].clone();
+            let shard: u64 = a.rest.get(1).map(|s| s.parse().unwrap()).unwrap_or(0);
+            let nshards: u64 = a.rest.get(2).map(|s| s.parse().unwrap()).unwrap_or(1);
+            let info = skel::generate(&side, &a.rest[3], shard, nshards, &a.out);
             println!("{}", info);
         }
         x => {
